@@ -296,8 +296,13 @@ class NPFacade:
 
     def angle(s, z, deg=False):
         if not isinstance(z, SC): return real_np.angle(z, deg=deg)
-        if deg: raise Inconclusive('np.angle(deg=True) of a symbolic value')
-        return core.polar(z)[1]
+        th = core.polar(z)[1]
+        if deg: return th * 180 / core.sym_pi()
+        return th
+
+    def log10(s, x):
+        if isinstance(x, (SC, core.SAbs)): return SLog10(x)
+        return real_np.log10(x)
 
     def mod(s, a, b):
         if _is_sym(a) or _is_sym(b):
@@ -305,6 +310,22 @@ class NPFacade:
             if h is None: raise Inconclusive('np.mod on symbolic values without a harness stub')
             return h(a, b)
         return real_np.mod(a, b)
+
+
+class SLog10:
+    """log10 of a symbolic non-negative real: only comparisons against numbers are supported (x <= 10^c; log10(0) = -inf)"""
+    def __init__(s, x): s.x = x
+    def _pow(s, c):
+        f = F(c).limit_denominator(10 ** 6)
+        if f.denominator != 1: raise Inconclusive('log10 compared with a non-integer bound')
+        return F(10) ** int(f)
+    def _val(s):
+        x = s.x
+        return x._real_abs() if isinstance(x, core.SAbs) else x
+    def __le__(s, c): return core.SBool(lambda: bool(s._val() <= s._pow(c)))
+    def __lt__(s, c): return core.SBool(lambda: bool(s._val() < s._pow(c)))
+    def __ge__(s, c): return core.SBool(lambda: bool(s._val() >= s._pow(c)))
+    def __gt__(s, c): return core.SBool(lambda: bool(s._val() > s._pow(c)))
 
 
 def patch_modules(mods, facade):
